@@ -23,6 +23,7 @@ func staticCases(tier string) []families.TextCase {
 	cs = append(cs, families.Headers()...)
 	cs = append(cs, families.HostileLiterals()...)
 	cs = append(cs, families.CodeBlocks()...)
+	cs = append(cs, families.UnusedRules()...)
 	// every grammar of the behaviour suite, under all eight option sets (the suite itself compiles
 	// only some of them)
 	for _, c := range behSuite(tier) {
